@@ -1,7 +1,10 @@
 #!/usr/bin/env python3
 """Sensitivity runs: apply a patch to a scratch worktree of /repo, run checks against it.
 
-  tools/mutant.py <patch.diff> <ID>[,<ID>...] [--tier quick|thorough] [--tests] [--keep]
+  tools/mutant.py <patch.diff> <ID>[,<ID>...] [--tier quick|thorough] [--tests] [--keep] [--save-tape <file-stem>]
+
+--save-tape copies the first reported replay file of a CAUGHT run to <file-stem><ext> (used to
+harvest regression tapes for the replay tier; the caller checks that they pass on /repo).
 
 Nothing in /repo or in /verif's evidence is touched: the scratch worktree lives under
 /tmp, with its own build cache and output directory, and is removed afterwards.
@@ -27,6 +30,7 @@ def main():
     keep = "--keep" in a
     if "--tier" in a:
         tier = a[a.index("--tier") + 1]
+    save = a[a.index("--save-tape") + 1] if "--save-tape" in a else None
     scratch = tempfile.mkdtemp(prefix="vmut-", dir="/tmp")
     os.rmdir(scratch)
     r = subprocess.run(["git", "-C", "/repo", "worktree", "add", "--detach", scratch, "HEAD"],
@@ -76,6 +80,13 @@ def main():
             print("MUTANT %s %s: %s   %s" % (name, pid, verdict, summ[0] if summ else ""))
             for ln in viol[:4]:
                 print("    " + ln.strip()[:300])
+            if save and verdict == "CAUGHT":
+                m = re.search(r"^VIOLATION property=\S+ replay=(\S+)", r.stdout, re.M)
+                if m and os.path.isfile(m.group(1)):
+                    dst = save + os.path.splitext(m.group(1))[1]
+                    os.makedirs(os.path.dirname(dst), exist_ok=True)
+                    shutil.copy(m.group(1), dst)
+                    print("    saved " + dst)
     finally:
         if not keep:
             subprocess.run(["git", "-C", "/repo", "worktree", "remove", "--force", scratch],
